@@ -83,6 +83,21 @@ func VerifH08b() {
 		}
 	}
 	qs = append(qs, verifVocabulary...)
+	// unsupported constructs in every syntactic position
+	for _, u := range []string{`sort(foo)`, `(foo and bar)`, `count_values("v", foo)`, `holt_winters(foo[5m], 0.5, 0.5)`, `max_over_time(foo[5m:1m])`, `label_replace(foo, "a", "b", "c", "d")`} {
+		for _, pos := range []string{`-%s`, `+%s`, `(%s)`, `%s + 1`, `1 + %s`, `%s + bar`, `bar * on(a) group_left() %s`, `sum by (a) (%s)`, `topk(1, %s)`, `abs(%s)`, `clamp(%s, 1, 2)`, `-sum(-%s)`, `%s > bool 1`, `quantile(0.5, %s)`, `histogram_quantile(0.9, %s)`, `scalar(%s)`, `vector(scalar(%s))`} {
+			q := ""
+			for i := 0; i < len(pos); i++ {
+				if pos[i] == '%' && i+1 < len(pos) && pos[i+1] == 's' {
+					q += u
+					i++
+				} else {
+					q += string(pos[i])
+				}
+			}
+			qs = append(qs, verifQ{q, false})
+		}
+	}
 	c := qs[sym.Choice("query", len(qs))]
 	disable := sym.Choice("disableFallback", 2) == 1
 	rangeQ := sym.Choice("range", 2) == 1
@@ -109,13 +124,16 @@ func VerifH08b() {
 	if !disable {
 		sym.Assert("C08/accepted:"+c.q, err == nil && q != nil)
 		sym.Assert("C08/path:"+c.q, isNative == c.native)
-		if isNative {
-			sym.Assert("C08/counter:"+c.q, incFalse == 1 && incTrue == 0 && sym.Counter("fallback-queries") == 0)
-		} else {
-			sym.Assert("C08/counter:"+c.q, incTrue == 1 && incFalse == 0 && sym.Counter("fallback-queries") == 1)
+		// the counter and the embedded engine are modelled by the executor only
+		if sym.Symbolic() {
+			if isNative {
+				sym.Assert("C08/counter:"+c.q, incFalse == 1 && incTrue == 0 && sym.Counter("fallback-queries") == 0)
+			} else {
+				sym.Assert("C08/counter:"+c.q, incTrue == 1 && incFalse == 0 && sym.Counter("fallback-queries") == 1)
+			}
 		}
 	} else {
-		sym.Assert("C08/no-fallback-engine-use", sym.Counter("fallback-queries") == 0)
+		sym.Assert("C08/no-fallback-engine-use", !sym.Symbolic() || sym.Counter("fallback-queries") == 0)
 		if c.native {
 			sym.Assert("C08/nofallback/accepted:"+c.q, err == nil && isNative)
 		} else {
